@@ -503,8 +503,10 @@ class Worker:
     def __init__(self, hash_seed: int) -> None:
         env = {**os.environ, "PYTHONHASHSEED": str(hash_seed), "TQDM_DISABLE": "1", "O2P_VERIF": "1"}
         self.hash_seed = hash_seed
+        import tempfile
+        self.errf = tempfile.TemporaryFile()
         self.p = subprocess.Popen([sys.executable, "-c", WORKER_CODE, json.dumps([str(REPO), str(SHIM)])],
-                                  stdin=subprocess.PIPE, stdout=subprocess.PIPE, stderr=subprocess.DEVNULL,
+                                  stdin=subprocess.PIPE, stdout=subprocess.PIPE, stderr=self.errf,
                                   text=True, env=env)
 
     def send(self, req: dict[str, Any]) -> None:
@@ -516,7 +518,17 @@ class Worker:
         assert self.p.stdout is not None
         line = self.p.stdout.readline()
         if not line:
-            return {"error": "worker died"}
+            # say how it ended: exit status (negative = signal) and the end of its stderr
+            tail = ""
+            try:
+                rc = self.p.wait(timeout=5)
+                self.errf.seek(0, 2)
+                n = self.errf.tell()
+                self.errf.seek(max(0, n - 600))
+                tail = self.errf.read().decode("utf-8", "replace")
+            except Exception:  # noqa: BLE001
+                rc = None
+            return {"error": "worker died", "exit_status": rc, "stderr_tail": tail}
         return json.loads(line)
 
     def close(self) -> None:
@@ -563,6 +575,8 @@ def run_requests(reqs: list[dict[str, Any]], n_workers: int = 14) -> list[dict[s
                     w.send(reqs[i])
                     rep = w.recv()
                     if rep.get("error") == "worker died":
+                        rep["error"] = (f"worker died twice (exit status {rep.get('exit_status')}): "
+                                        f"{str(rep.get('stderr_tail'))[-300:]}")
                         w.close()
                         w = Worker(seed)
                 out[i] = rep
